@@ -95,6 +95,13 @@ def run(check, prog):
     from . import c11
     c11.grammar(check, prog)
     c11.rebuilding(check, prog)
+    # loading calls the constructor with what the constructor stored: a value it
+    # fills in itself (the default guess of a Uniform: a bound, the midpoint, 0)
+    # must be one it accepts back, i.e. the refusal is exactly "outside the
+    # bounds" (rule shared with C14)
+    from . import c14
+    from hpstatic.poly import Canon
+    c14.r8_uniform_guess(check, prog, Canon())
 
 
 # ----------------------------------------------------------------------
@@ -395,23 +402,63 @@ def r4_tags(check, prog):
         r.ret[2] and r.ret[2][0] == ('attr', sym('node'), 'value')
     check.require(ok, 'R4-complex-lossless', 'complex_constructor',
                   'reader is complex(node.value)', m.relpath)
+    # the scalar / sequence representers hand the value itself to the yaml
+    # writer: converted to the python type of the same value, and nothing else
+    # (no formatting, rounding or arithmetic on the way)
+    data = sym('data')
+
+    def lossless(x, kinds):
+        """x is `data` after conversions that keep the value"""
+        while True:
+            if x == data:
+                return True
+            if x[0] == 'call' and x[1] in kinds and len(x[2]) == 1 and not x[3]:
+                x = x[2][0]
+            elif x[0] == 'call' and isinstance(x[1], tuple) and x[1][0] == 'attr' and \
+                    x[1][2] in ('item', 'tolist') and not x[2]:
+                x = x[1][1]
+            else:
+                return False
+
+    def handed(ret, method, kinds):
+        leaves = []
+
+        def walk(t):
+            if t[0] == 'ite':
+                walk(t[2])
+                walk(t[3])
+            else:
+                leaves.append(t)
+        walk(ret)
+        good = [t for t in leaves if t[0] == 'call' and isinstance(t[1], tuple) and
+                t[1][0] == 'attr' and t[1][2] in method and len(t[2]) == 1 and
+                lossless(t[2][0], kinds)]
+        return len(good) == len(leaves) and bool(leaves), leaves
     r = it.analyze('holopy.core.io.serialize.ndarray_representer')
-    lists = calls_in(r.ret, 'represent_list')
-    ok = bool(lists) and any(calls_in(c[2][0], 'tolist') for c in lists if c[2])
+    ok, leaves = handed(r.ret, ('represent_list', 'represent_data'), ('list',))
+    ok = ok and any(t[1][2] == 'represent_list' and calls_in(t[2][0], 'tolist')
+                    for t in leaves)
     check.require(ok, 'R4-ndarray-as-list', 'ndarray_representer',
                   'arrays of ndim > 0 are written as (nested) lists of python '
-                  'scalars via tolist()', m.relpath)
+                  'scalars via tolist(), 0-d arrays as their item', m.relpath,
+                  fail_detail='writes %s' % [show(t)[:80] for t in leaves])
     r = it.analyze('holopy.core.io.serialize.tuple_representer')
-    ok = bool(calls_in(r.ret, 'represent_list'))
-    check.require(ok, 'R4-tuple-as-list', 'tuple_representer', '', m.relpath)
+    ok, leaves = handed(r.ret, ('represent_list',), ('list',))
+    check.require(ok, 'R4-tuple-as-list', 'tuple_representer',
+                  'the tuple\'s own items, as a list', m.relpath,
+                  fail_detail='writes %s' % [show(t)[:80] for t in leaves])
     r = it.analyze('holopy.core.io.serialize.numpy_float_representer')
-    ok = bool(calls_in(r.ret, 'represent_float')) and bool(calls_in(r.ret, 'float'))
+    ok, leaves = handed(r.ret, ('represent_float',), ('float',))
     check.require(ok, 'R4-numpy-scalars', 'numpy_float_representer',
-                  'np.float64 written through float()', m.relpath)
+                  'np.float64 handed to the yaml float writer as the python float of '
+                  'the same value (the writer emits repr(): every digit)', m.relpath,
+                  fail_detail='writes %s: digits are lost before the writer sees the '
+                  'value' % [show(t)[:80] for t in leaves])
     r = it.analyze('holopy.core.io.serialize.numpy_int_representer')
-    ok = bool(calls_in(r.ret, 'represent_int')) and bool(calls_in(r.ret, 'int'))
+    ok, leaves = handed(r.ret, ('represent_int',), ('int',))
     check.require(ok, 'R4-numpy-scalars', 'numpy_int_representer',
-                  'np.int64/32 written through int()', m.relpath)
+                  'np.int64/32 handed over as the python int of the same value',
+                  m.relpath, fail_detail='writes %s' % [show(t)[:80] for t in leaves])
     # class tags: unique short names among Serializable subclasses
     ser = prog.subclasses('holopy.core.holopy_object.Serializable')
     names = {}
